@@ -744,6 +744,85 @@ def restore(m, data0):
 
 
 # ---------------------------------------------------------------------------------------------------------------
+# argument FORMS.  Established on /repo HEAD: an integer position may be a Python int or a signed NumPy integer scalar
+# (np.int64 / np.int32 / np.intp / np.int16 — what np.flatnonzero, np.argmax, an element of np.arange give), in the
+# non-negative or the negative spelling (t - n), and denotes the same period; counts, offset, tolerance and flags may
+# be NumPy scalars.  NOT among them: bool (`True` as an index broadcasts over the series) and unsigned NumPy integers
+# (`t - k` wraps around in unsigned arithmetic).
+
+INT_FORMS = {'int': int, 'np.int64': np.int64, 'np.int32': np.int32, 'np.intp': np.intp, 'np.int16': np.int16}
+
+
+def int_form(r, value):
+    name = r.choice(['int', 'int', 'np.int64', 'np.int64', 'np.int32', 'np.intp', 'np.int16'])
+    return name, INT_FORMS[name](value)
+
+
+def period_arg(r, t, n):
+    """(label, argument) for position t of a span of length n: some integer form, either spelling."""
+    neg = r.random() < 0.3
+    name, arg = int_form(r, t - n if neg else t)
+    return name + (':negative' if neg else ''), arg
+
+
+def solve_kwargs(r):
+    """solve_t keywords for ONE iteration with default error handling, in varying scalar forms (label, kwargs)."""
+    kw, labels = {'failures': 'ignore'}, []
+    nm, kw['max_iter'] = int_form(r, 1)
+    labels.append('max_iter=' + nm)
+    if r.random() < 0.5:
+        nm, kw['min_iter'] = int_form(r, r.choice([0, 1]))
+        labels.append('min_iter=' + nm)
+    if r.random() < 0.5:
+        nm, kw['offset'] = int_form(r, 0)
+        labels.append('offset=' + nm)
+    k = r.random()
+    if k < 0.25:
+        kw['tol'] = np.float64(1e-10)
+        labels.append('tol=np.float64')
+    elif k < 0.4:
+        kw['tol'] = np.float32(1e-10)
+        labels.append('tol=np.float32')
+    elif k < 0.5:
+        kw['tol'] = 1e-10
+    if r.random() < 0.25:
+        kw['catch_first_error'] = np.bool_(True)
+        labels.append('catch_first_error=np.bool_')
+    return labels, kw
+
+
+def symbol_collection(r, symbols):
+    """(label, collection): the symbols as a list or in another form the tools accept on HEAD — every one is iterated
+    exactly once by symbols_to_graph, so one-shot iterables are among them."""
+    import collections, itertools
+
+    class SymbolList(list):
+        pass
+    form = r.choice(['list', 'list', 'tuple', 'generator', 'iter', 'filter', 'map', 'dict-values', 'deque',
+                     'list-subclass', 'chain'])
+    sy = list(symbols)
+    if form == 'tuple':
+        return form, tuple(sy)
+    if form == 'generator':
+        return form, (s for s in sy)
+    if form == 'iter':
+        return form, iter(sy)
+    if form == 'filter':
+        return form, filter(lambda s: True, sy)
+    if form == 'map':
+        return form, map(lambda s: s, sy)
+    if form == 'dict-values':
+        return form, {i: s for i, s in enumerate(sy)}.values()
+    if form == 'deque':
+        return form, collections.deque(sy)
+    if form == 'list-subclass':
+        return form, SymbolList(sy)
+    if form == 'chain':
+        return form, itertools.chain(sy[:1], sy[1:])
+    return form, sy
+
+
+# ---------------------------------------------------------------------------------------------------------------
 # parallel observation of the real code (thorough tier)
 
 _OBSERVE = None
